@@ -21,6 +21,12 @@ def showRes : Except Err (List Nat) → String
   | .error .pduSize => "err size"
   | .error (.redact _) => "err other"
 
+def showId : Except Err (Option (List Nat)) → String
+  | .ok none => "none"
+  | .ok (some s) => "ok " ++ ascii s
+  | .error .pduSize => "err size"
+  | .error (.redact _) => "err other"
+
 def tf (b : Bool) : String := if b then "t" else "f"
 
 def version (s : String) : Option Nat :=
@@ -76,6 +82,13 @@ def handle (toks : List String) : String :=
     | some v =>
       match implRules v, implFormat v, parseOne rest with
       | some r, some fmt, some (.obj ev) => showRes (referenceHash sha256Ref r fmt ev)
+      | _, _, _ => "bad-op"
+    | none => "bad-op"
+  | "c05.eventid" :: v :: rest =>
+    match version v with
+    | some v =>
+      match implRules v, implFormat v, parseOne rest with
+      | some r, some fmt, some (.obj ev) => showId (eventId sha256Ref r fmt ev)
       | _, _, _ => "bad-op"
     | none => "bad-op"
   -- the executable references themselves, against the `sha2` / `base64` crates
